@@ -19,3 +19,4 @@ run C13_fileproducer_test.go signers 49e610a
 run C15_doretry_negative_retries_test.go token/worker 3d832de
 run C04_getkey_dangling_alias_test.go config 25742f7
 run C10_vsix_unverified_timestamp_test.go signers/vsix 9423249
+run C12_binpatch_load_test.go lib/binpatch 7fd31a3
